@@ -5,6 +5,7 @@ import (
 	"go/ast"
 	"go/token"
 	"go/types"
+	"regexp"
 	"sort"
 	"strings"
 )
@@ -83,10 +84,31 @@ func (l lockset) String() string {
 func (r *Run) locksAlong(path *Path, initial lockset) []lockset {
 	cur := initial.clone()
 	out := make([]lockset, len(path.Events))
+	// deferred unlocks run when the function (or closure) that registered them returns: for a
+	// looked-into helper or an inlined closure that is the end of its bracket; for the function
+	// under analysis itself, the end of the path
+	var frames [][]string
 	for i, ev := range path.Events {
 		out[i] = cur.clone()
-		if ev.Kind == EvDefer {
-			continue // deferred unlock: held to the end of the function
+		switch ev.Kind {
+		case EvEnter:
+			frames = append(frames, nil)
+			continue
+		case EvExit:
+			if n := len(frames); n > 0 {
+				for _, k := range frames[n-1] {
+					delete(cur, k)
+				}
+				frames = frames[:n-1]
+			}
+			continue
+		case EvDefer:
+			if op := r.lockOpOf(ev); op != nil && (op.Op == "Unlock" || op.Op == "RUnlock") {
+				if n := len(frames); n > 0 {
+					frames[n-1] = append(frames[n-1], op.Key)
+				}
+			}
+			continue
 		}
 		if op := r.lockOpOf(ev); op != nil {
 			switch op.Op {
@@ -762,6 +784,8 @@ func (r *Run) checkPublishedOnce(name, why string, writes []fieldAccess) {
 // ---------------------------------------------------------------------------------------------
 // F5 ESCAPE: no method of a lock-protected struct returns a guarded map or slice itself.
 
+var reRecvContainer = regexp.MustCompile(`^recv\.([A-Za-z_][A-Za-z0-9_]*)(\[[^\]]*\])*$`)
+
 func ruleNoEscape(r *Run) {
 	if r.broken() {
 		return
@@ -785,24 +809,30 @@ func ruleNoEscape(r *Run) {
 				return true
 			}
 			for _, res := range rs.Results {
-				se, ok := ast.Unparen(res).(*ast.SelectorExpr)
+				// the value returned is a map or slice that lives in (or below) a field of the receiver:
+				// recv.f, recv.f[k], or a local that is an alias of one of these
+				tv, ok := fn.Info().Types[res]
 				if !ok {
 					continue
 				}
-				sel, ok := fn.Info().Selections[se]
-				if !ok || sel.Kind() != types.FieldVal {
+				switch tv.Type.Underlying().(type) {
+				case *types.Map, *types.Slice:
+				default:
 					continue
 				}
-				if id, ok := ast.Unparen(se.X).(*ast.Ident); !ok || fn.Info().Uses[id] != fn.Recv {
+				c := r.P.Canon(fn, res)
+				m := reRecvContainer.FindStringSubmatch(c)
+				if m == nil {
+					continue
+				}
+				fv := r.P.LookupField(rn.Obj().Pkg().Path(), rn.Obj().Name(), m[1])
+				if fv == nil {
 					continue
 				}
 				n++
-				switch sel.Type().Underlying().(type) {
-				case *types.Map, *types.Slice:
-					// fields never written after construction may be handed out
-					r.Check("F5", fn.Name+":returns["+sel.Obj().Name()+"]", !r.fieldWrittenOutsideCtor(rn, sel.Obj().(*types.Var)), res.Pos(),
-						"%s returns the lock-protected container %s itself: callers read or write it without the lock", fn.Name, sel.Obj().Name())
-				}
+				// fields never written after construction may be handed out
+				r.Check("F5", fn.Name+":returns["+fv.Name()+"]", !r.fieldWrittenOutsideCtor(rn, fv), res.Pos(),
+					"%s returns the lock-protected container %s itself (%s): callers read or write it without the lock", fn.Name, fv.Name(), c)
 			}
 			return true
 		})
